@@ -1,4 +1,5 @@
 import FluentProofs.Unescape
+import FluentProofs.UnescapeFast
 /-!
 # C13 — string-literal escapes decode exactly and never fail
 
@@ -9,7 +10,7 @@ characters, written from the property text).  Inputs are *all* `String`s, i.e. a
 sequences of any length (`ByteArray.IsValidUTF8`); nothing is bounded.
 -/
 namespace FluentProofs.C13
-open FluentModel FluentModel.Unescape FluentProofs.UnescapeSpec FluentProofs.Unescape
+open FluentModel FluentModel.Unescape FluentProofs.UnescapeSpec FluentProofs.Unescape FluentProofs.UnescapeFast
 
 /-- **Unescaping returns, for every valid UTF-8 input of any length**: neither entry point reaches a
 panicking slice (`&input[a..b]` off a char boundary or out of range) and the fuel the model passes to
@@ -54,6 +55,38 @@ theorem C13_writer_eq_string (s : String) (w : Bytes) :
       unescapeUnicode w s.toUTF8.data = .done (w ++ out) := by
   refine ⟨_, _, C13_unescape_eq_decode s, ?_⟩
   rw [string_bytes, unescapeUnicode_spec, utf8_eq_enc]
+
+/-! ### The functions the driver `fvm_unesc` runs
+
+The model tie executes the linear-time variants `unescapeUnicodeToStringFast` / `unescapeUnicodeFast`
+(`FluentModel.UnescapeFast`: the written bytes are kept in an array instead of a list).  They are equal
+to the functions above on every input and in every outcome (`FluentProofs.UnescapeFast`), so the
+headline theorems hold of them verbatim. -/
+
+/-- **The driver's functions are the model's functions** (all inputs, all outcomes incl. the flag). -/
+theorem C13_fast_eq (s : Src) (w : Bytes) :
+    unescapeUnicodeToStringFast s = unescapeUnicodeToString s ∧
+      unescapeUnicodeFast w s = unescapeUnicode w s :=
+  ⟨unescapeUnicodeToStringFast_eq s, unescapeUnicodeFast_eq w s⟩
+
+/-- `C13_unescape_total` for the functions the driver runs. -/
+theorem C13_unescape_total_fast (b : ByteArray) (h : b.IsValidUTF8) (w : Bytes) :
+    (∃ r, unescapeUnicodeToStringFast b.data = .done r) ∧ (∃ r, unescapeUnicodeFast w b.data = .done r) := by
+  rw [unescapeUnicodeToStringFast_eq, unescapeUnicodeFast_eq]
+  exact C13_unescape_total b h w
+
+/-- `C13_unescape_eq_decode` and `C13_writer_eq_string` for the functions the driver runs: the string
+form yields the UTF-8 of `decode` with the owned/borrowed flag, the writer form appends that same text. -/
+theorem C13_unescape_eq_decode_fast (s : String) (w : Bytes) :
+    unescapeUnicodeToStringFast s.toUTF8.data =
+        .done (utf8 (decode s.toList), s.toList.any (· == '\\')) ∧
+      unescapeUnicodeFast w s.toUTF8.data = .done (w ++ utf8 (decode s.toList)) := by
+  rw [unescapeUnicodeToStringFast_eq, unescapeUnicodeFast_eq]
+  refine ⟨C13_unescape_eq_decode s, ?_⟩
+  obtain ⟨out, owned, h1, h2⟩ := C13_writer_eq_string s w
+  rw [C13_unescape_eq_decode] at h1
+  cases h1
+  exact h2
 
 /-! Non-vacuity / sanity (these are tests on literals, not the theorems): the model run on the former
 crash witness F3 (`\u000éx`), on F4 (`\u+041`), on a truncated escape, and a well-formed token list. -/
